@@ -320,16 +320,20 @@ class ExprMixin:
             return self.map_has(env.state, m, tn, key), None
         if name == 'implements':
             x, tn = self.eval(args[0], env)
-            a = args[1]
-            tname = a[1] if a[0] == 'name' else (a[1][1] + '.' + a[2] if a[0] == 'sel' and a[1][0] == 'name' else None)
-            full = self.resolve_type_name(tname, env)
+            full = self.type_from_ast(args[1], env)
             return self.uf_implements(x, full), None
+        if name == 'ptr':
+            x, tn = self.eval(args[0], env)
+            if len(args) == 2:
+                return self.uf_pay(x), self.type_from_ast(args[1], env)
+            if is_term(x) and x in self.iface_static:
+                return self.iface_static[x][1], self.iface_static[x][0]
+            return self.uf_pay(x), None
         if name == 'dyntype':
             x, tn = self.eval(args[0], env)
             return self.uf_dyn(x), None
         if name == 'typeid':
-            tname = args[0][1] if args[0][0] == 'name' else None
-            full = self.resolve_type_name(tname, env)
+            full = self.type_from_ast(args[0], env)
             return T.I(self.ty.type_id(full)), None
         if name == 'fresh':
             x, tn = self.eval(args[0], env)
@@ -352,13 +356,27 @@ class ExprMixin:
             return self.apply_specfunc(sf, vals, env), None
         raise Unsupported('unknown function %s in contract' % name)
 
+    def type_from_ast(self, a, env):
+        if a[0] == 'un' and a[1] == '*':
+            return '*' + self.type_from_ast(a[2], env)
+        if a[0] == 'name':
+            return self.resolve_type_name(a[1], env)
+        if a[0] == 'sel' and a[1][0] == 'name':
+            return self.resolve_type_name(a[1][1] + '.' + a[2], env)
+        raise Unsupported('type expression')
+
     def resolve_type_name(self, tname, env):
-        for full in self.prog.types:
-            if full == tname or full.endswith('.' + tname) and (env.pkg and full == env.pkg + '.' + tname):
-                return full
-        for full in self.prog.types:
-            if full.endswith('.' + tname) or full.endswith('/' + tname):
-                return full
+        if tname is None:
+            raise Unsupported('type name')
+        def plain(full):
+            return not any(ch in full for ch in '*[](){} ,')
+        if tname in self.prog.types:
+            return tname
+        if env.pkg and (env.pkg + '.' + tname) in self.prog.types:
+            return env.pkg + '.' + tname
+        cands = [full for full in self.prog.types if plain(full) and (full.endswith('/' + tname) or full.endswith('.' + tname) and '.' not in tname)]
+        if cands:
+            return sorted(cands, key=len)[0]
         return tname
 
     def apply_specfunc(self, sf, vals, env):
